@@ -66,6 +66,26 @@ def run(chk):
                     expect.append((dict(info, solver="kalman"), float(gk.log_probability(Y)), np.asarray(gk.solver.s), True))
                     exprs.append(f"quasisep_case {n} {gpcases.symm_coq(kern.to_symm_qsm(X))} {Ncoq} {cvec(mfun(x))} {cvec(y)}")
                     expect.append((dict(info, solver="quasisep"), float(gq.log_probability(Y)), np.asarray(gq.solver.factor.diag.d), False))
+                # the conditional process in every conditioning mode (C02's option matrix, compared solver against solver)
+                xt_new = np.sort(np.concatenate([x[: max(1, n // 2)], rng.uniform(x.min() - 1, x.max() + 1, size=2)]))
+                bnd = gpcases.noise_models(rng, n, ["banded"])[0][1]
+                other = qk[(ci + 1) % len(qk)][1]
+                modes = [("absent/default", None, {}), ("absent/scalar", None, {"diag": jnp.asarray(0.3)}),
+                         ("absent/vector", None, {"diag": jnp.asarray(rng.uniform(0.1, 0.5, size=n))}),
+                         ("absent/banded", None, {"noise": bnd}), ("absent/other-kernel", None, {"kernel": other}),
+                         ("absent/other-kernel/banded", None, {"kernel": other, "noise": bnd}),
+                         ("new-inputs", jnp.asarray(xt_new), {}), ("new-inputs/no-mean", jnp.asarray(xt_new), {"include_mean": False})]
+                for mname_, xt_, kw_ in (modes if not quick or rep == 0 else modes[:4]):
+                    try:
+                        cd, cq = gd.condition(Y, xt_, **kw_), gq.condition(Y, xt_, **kw_)
+                    except Exception as e:  # noqa: BLE001
+                        oracle_bad.append(dict(info, op=f"condition[{mname_}]", expected="a process from both solvers",
+                                               observed=f"raised {type(e).__name__}: {str(e)[:80]}"))
+                        continue
+                    pairs += [(f"condition[{mname_}].log_probability", cd.log_probability, cq.log_probability),
+                              (f"condition[{mname_}].loc", cd.gp.loc, cq.gp.loc),
+                              (f"condition[{mname_}].variance", cd.gp.variance, cq.gp.variance),
+                              (f"condition[{mname_}].covariance", cd.gp.covariance, cq.gp.covariance)]
                 for op, a, b in pairs:
                     ok, dv = close(np.asarray(b), np.asarray(a), 1e-8)
                     hist[op.split("(")[0].split("[")[0]] = hist.get(op.split("(")[0].split("[")[0], 0) + 1
@@ -97,7 +117,7 @@ def run(chk):
     chk.cov["rule"] = ("6 quasiseparable kernel expressions x {scalar, per-point, banded} noise x 3 mean kinds x sizes from 1 with coincident points; "
                        "dense vs quasiseparable: log probability, normalization, covariance, variance, samples for a key and three shapes, "
                        "triangular product / solve; Kalman vs both: log probability, normalization, whitened residual; automatic solver selection; "
-                       "distinct = different (kernel, noise, mean, n). Conditioning modes are compared pairwise in the C02 check.")
+                       "the conditional process (log probability, mean, variance, covariance) in 8 conditioning modes incl. banded / diagonal predictive noise and another prediction kernel at the training inputs; distinct = different (kernel, noise, mean, n).")
     chk.cov["input_histogram"] = hist
     chk.cov["max_model_impl_deviation"] = maxdev
     chk.cov["samples"] = [e[0] for e in expect[:2]]
